@@ -1,4 +1,5 @@
 import PlushModel
+import PlushModel.Gen.EvalDispatch
 /-!
   C12 — Go helpers receive exactly the supplied arguments, in order, or are not called.
   Decision logic of the argument binder (`bindArgs` / `bindFixed` / `bindVariadic`, the model of the
@@ -84,5 +85,15 @@ theorem C12_wrap_keeps_causes (e : Err) : ({ e with kind := "helper-failed", dir
     helper context / options map exists exactly where the binder auto-supplies it -/
 example : (helperSig "partial").map (·.params.length) = some 3 ∧ (helperSig "contentOf").map (·.params.length) = some 3 ∧
     (helperSig "truncate").map (·.params) = some [.string, optsTy] := by decide
+
+/-- THE ARGUMENT CHECK IN /repo IS ASSIGNABILITY, at all three binding sites (fixed parameters, the fixed part of a
+    variadic, the variadic tail) — re-read from `evalCallExpression` on every run: the reflect type predicates it
+    applies are exactly three `AssignableTo` on the argument's type, plus the `ConvertibleTo`/`Implements` tests
+    that recognise an omitted helper-context / options parameter. A check relaxed to convertibility (seeded changes
+    C01-e, C04-i: a string accepted for a `template.HTML` parameter, a slice for an array parameter) changes this
+    list. The model's `bindFixed` / `bindVariadic` use `assignableTo` (C12_bad_arg, C12_good_arg). -/
+theorem C12_argument_check_is_assignability :
+    Gen.callTypeChecks = ["actualT.AssignableTo", "arg.ConvertibleTo", "arg.Implements", "arg.ConvertibleTo",
+      "actualT.AssignableTo", "actualT.AssignableTo"] := rfl
 
 end Plush
